@@ -109,8 +109,17 @@ def body(shape, k, sel):
                 tag = w.order[0] if ' a' in name else w.order[1]
                 rid = 7 if 'rid7' in name else None
                 rt.note(name)
+                asked_idle = set() if list(w.nodes[tag].get('todo')) else {tag}
                 w.request(tag, ['T1'] if ' a' in name else ['__all__'], runid=rid)
-                expect_rid[tag] = ('given', 7) if rid else ('fresh',)
+                prev = expect_rid.get(tag)
+                new = ('given', 7) if rid else ('fresh',)
+                if list(w.nodes[tag].get('todo')) and prev and prev[0] in ('given', 'fresh') and tag not in asked_idle:
+                    # work organised earlier is still waiting under this node: the run id never moves backward, "draw a fresh one" wins
+                    if prev[0] == 'fresh' or new[0] == 'fresh':
+                        new = ('fresh',)
+                    else:
+                        new = ('given', max(prev[1], new[1]))
+                expect_rid[tag] = new
                 if rid:
                     seen_rids.add(7)
             elif name == 'NOTIFY':
